@@ -1,6 +1,8 @@
 """C37 both sides of a bidirectional relationship agree - OrmGraph.tla (DESIGN 3.9, 4 (C37), Appendix I)."""
+import os
 import random
 
+from engine import graph, tlc
 from checks import ormgraph_common as oc
 
 LEVEL = "model_checking"
@@ -10,9 +12,12 @@ MANIFEST = dict(
          "with add/flush/commit+reload. TLC checks BothSides (c in p.children <=> c.parent is p) on every reachable state (2 parents x 2-3 "
          "children, depth 6-7) incl. after flush and after commit + reload in a fresh session; every labelled edge of the state graph is replayed "
          "against the real ORM comparing both sides read from __dict__ after every step. Lists holding the same child twice are a separate "
-         "configuration that exposes the recorded duplicate-child defect.",
+         "configuration that exposes the recorded duplicate-child defect. OrmOneToOne.tla does the same for a one-to-one pair (scalar on both "
+         "sides, in-memory sets from either side, every edge replayed) and exposes the displaced-partner defect; OrmManyToMany.tla for a "
+         "many-to-many pair (two lists, append/insert/remove/pop/replace from either side, list order compared).",
     design_ref="3.9, 4 (C37), 6 (C37), Appendix I",
-    note="trusted: TLC, the transcription of the backref listeners; one-to-many/many-to-one pair only (one-to-one, many-to-many not built); "
+    note="trusted: TLC, the transcription of the backref listeners; one-to-many/many-to-one pair (with flush and reload), one-to-one and many-to-many pairs (in memory); "
+         "slice assignment and set/dict collections not built; "
          "all relationship attributes loaded/initialised (no unloaded or expired attribute paths); SQLite only",
     technique="TLA+ spec (OrmGraph.tla) + TLC exhaustive model checking; spec->code replay of every state-graph edge into the real ORM")
 MEM = ["Append", "Insert", "Remove", "Pop", "Replace", "SetParent"]
@@ -22,6 +27,92 @@ INVS = ["TypeOK", "BothSides", "NoDuplicates"]
 
 def nontrivial(f, act, t):
     return act["a"] in MEM and any(f["parent"][c] != t["parent"][c] and f["parent"][c] != "none" for c in f["parent"])
+
+
+def one_to_one(chk, rng, st):
+    """second relationship kind: one-to-one pair P.child <-> C.parent (OrmOneToOne.tla), in-memory mutations from either side"""
+    q = chk.quick
+    ps, cs = ["p1", "p2"], (["c1", "c2"] if q else ["c1", "c2", "c3"])
+    depth = 5 if q else 6
+    consts = dict(Ps=set(tlc.q(x) for x in ps), Cs=set(tlc.q(x) for x in cs), MaxDepth=depth)
+    cfgt = tlc.cfg(constants=consts, init="InitEmit", invariants=["TypeOK", "BothSides11_NoDisplacement"], view="View",
+                   action_constraints=["Emit"], constraints=["Depth"])
+    g = graph.dump("OrmOneToOne", cfgt, os.path.join(chk.work, "dump-one-to-one"), timeout=900)
+    r = g.tlc
+    if r.violated:
+        chk.violation({"spec": "OrmOneToOne", "action": "TLC", "invariant": str(r.violated)}, "TLC: %s violated in OrmOneToOne.tla" % r.violated)
+    cov = oc.action_counts(g)
+    for a in ("SetChild", "SetParent"):
+        if not cov.get(a):
+            chk.machinery("vacuous: action %s never taken in OrmOneToOne" % a)
+    walks, info = graph.plan_tours(g, depth, rng)
+    walks += graph.random_walks(g, 100 if q else 1000, depth, rng)
+    from checks.ormgraph_driver import Driver11, mapping11
+    mapping11()
+    steps, mism = graph.replay(g, walks, lambda wid, wd: Driver11(wid, wd, ps, cs), os.path.join(chk.work, "replay-one-to-one"), nproc=16)
+    for m in mism:
+        act = m["act"] if isinstance(m["act"], dict) else {"a": m["act"]}
+        chk.violation({"spec": "OrmOneToOne", "kind": "conformance", "action": act.get("a")},
+                      "real one-to-one pair diverges from OrmOneToOne.tla at %s%s: %s" % (act.get("a"), tuple(act.get("arg", ())), m["mismatch"]), m)
+    # the unrestricted property: expected to be violated (recorded finding)
+    cfg2 = tlc.cfg(constants=consts, init="Init", invariants=["BothSides11"], view="View", constraints=["Depth"])
+    r2 = tlc.run("OrmOneToOne", cfg2, os.path.join(chk.work, "expose-one-to-one"), workers=2, timeout=600, keep_stdout=False)
+    if r2.violated:
+        chk.violation({"spec": "OrmOneToOne", "action": "TLC", "invariant": "BothSides11", "scope": "partnered-value-assigned-to-a-new-partner"},
+                      "one-to-one: assigning a child that already has a parent to another parent through the scalar side (p2.child = c1 while "
+                      "c1.parent is p1) leaves p1.child pointing at c1 although c1.parent is p2 (and symmetrically c.parent = p leaves the displaced "
+                      "child's parent set). Holds on every history without such a displacement (BothSides11_NoDisplacement).")
+    nt = sum(1 for e in g.edges if g.states[e[0]] != g.states[e[2]])
+    st["states"] += r.distinct + r2.distinct
+    st["transitions"] += r.generated + r2.generated
+    st["edges"] += len(g.edges)
+    st["walks"] += len(walks)
+    st["steps"] += steps
+    st["nontrivial"] += nt
+    st["per_config"]["one-to-one"] = dict(states=r.distinct, transitions=r.generated, edges=len(g.edges), walks=len(walks), steps=steps,
+                                          mismatches=len(mism), depth=r.depth, plan=info, expose_violated=str(r2.violated))
+    if walks:
+        w = walks[len(walks) // 2]
+        st["samples"].append({"config": "one-to-one", "walk": ["%s(%s)" % (g.edges[ei][1]["a"], ",".join(g.edges[ei][1]["arg"])) for ei in w]})
+
+
+def many_to_many(chk, rng, st):
+    """third relationship kind: many-to-many pair L.rs <-> R.ls (OrmManyToMany.tla), in-memory list mutations from either side"""
+    q = chk.quick
+    ls, rs = ["l1", "l2"], ["r1", "r2"]
+    depth = 4 if q else 6
+    consts = dict(Ls=set(tlc.q(x) for x in ls), Rs=set(tlc.q(x) for x in rs), MaxDepth=depth)
+    cfgt = tlc.cfg(constants=consts, init="InitEmit", invariants=["BothSidesMM", "NoDuplicates"], view="View",
+                   action_constraints=["Emit"], constraints=["Depth"])
+    g = graph.dump("OrmManyToMany", cfgt, os.path.join(chk.work, "dump-many-to-many"), timeout=900)
+    r = g.tlc
+    if r.violated:
+        chk.violation({"spec": "OrmManyToMany", "action": "TLC", "invariant": str(r.violated)}, "TLC: %s violated in OrmManyToMany.tla" % r.violated)
+    cov = oc.action_counts(g)
+    for a in ("Append", "Insert", "Remove", "Pop", "Replace"):
+        if not cov.get(a):
+            chk.machinery("vacuous: action %s never taken in OrmManyToMany" % a)
+    walks, info = graph.plan_tours(g, depth, rng)
+    walks += graph.random_walks(g, 100 if q else 1000, depth, rng)
+    from checks.ormgraph_driver import DriverMM
+    from checks import ormgraph_shapes
+    ormgraph_shapes.models()
+    steps, mism = graph.replay(g, walks, lambda wid, wd: DriverMM(wid, wd, ls, rs), os.path.join(chk.work, "replay-many-to-many"), nproc=16)
+    for m in mism:
+        act = m["act"] if isinstance(m["act"], dict) else {"a": m["act"]}
+        chk.violation({"spec": "OrmManyToMany", "kind": "conformance", "action": act.get("a")},
+                      "real many-to-many pair diverges from OrmManyToMany.tla at %s%s: %s" % (act.get("a"), tuple(act.get("arg", ())), m["mismatch"]), m)
+    st["states"] += r.distinct
+    st["transitions"] += r.generated
+    st["edges"] += len(g.edges)
+    st["walks"] += len(walks)
+    st["steps"] += steps
+    st["nontrivial"] += sum(1 for e in g.edges if e[1]["a"] in ("Remove", "Pop", "Replace"))
+    st["per_config"]["many-to-many"] = dict(states=r.distinct, transitions=r.generated, edges=len(g.edges), walks=len(walks), steps=steps,
+                                            mismatches=len(mism), depth=r.depth, plan=info)
+    if walks:
+        w = walks[len(walks) // 2]
+        st["samples"].append({"config": "many-to-many", "walk": ["%s(%s)" % (g.edges[ei][1]["a"], ",".join(g.edges[ei][1]["arg"])) for ei in w]})
 
 
 def main(chk):
@@ -53,6 +144,8 @@ def main(chk):
                         "(e.g. p1.children=[c1,c1]; p2.children.append(c1) -> c1 still in p1.children while c1.parent is p2; "
                         "p1.children.pop() of one of two occurrences clears c1.parent). Holds on every duplicate-free history (BothSides_NoDup).")]
     st = oc.run_suite(chk, rng, configs, ACTS, deep=deep, expose=expose, nontrivial=nontrivial)
+    one_to_one(chk, rng, st)
+    many_to_many(chk, rng, st)
     return chk.finish(
         dict(states=st["states"] + st["deep_states"], transitions=st["transitions"] + st["deep_transitions"],
              traces_validated_against_impl=st["walks"], evaluations=st["steps"], distinct_nontrivial=st["nontrivial"], samples=st["samples"],
@@ -62,5 +155,6 @@ def main(chk):
                   "away from a parent it currently has (re-parenting, removal, replacement)",
              checker_cmd="tlc OrmGraph.tla (VIEW View, ACTION_CONSTRAINT Emit)"),
         assumptions=["one-to-many / many-to-one pair with back_populates; list collection; %d parents x %d children" % (2, nc),
+                     "one-to-one pair (uselist=False) and many-to-many pair (2 x 2, duplicate-free lists): in-memory mutations only, no flush",
                      "relationship attributes always loaded/initialised; autoflush off; SQLite file engine, foreign_keys=ON",
                      "duplicate children explored only for in-memory mutations (no flush)"])
